@@ -136,15 +136,43 @@ pub fn exec(s: &mut CrdtSession, toks: &[&str], enc: TextEncoding) -> Vec<String
             for m in 0..n {
                 let mut b = bytes.clone();
                 // pick a chunk, mutate 1..3 body bytes, recompute its checksum
-                let (ty, _, start, end) = bounds[rng.below(bounds.len() as u64) as usize].clone();
+                let pick = rng.below(bounds.len() as u64) as usize;
+                let pick = if m < 4 { bounds.iter().position(|x| x.0 == 0).unwrap_or(pick) } else { pick };
+                let (ty, _, start, end) = bounds[pick].clone();
                 let mut rd = &b[start + 9..];
                 let before = rd.len();
                 let len = leb128::read::unsigned(&mut rd).unwrap() as usize;
                 let hdr = 9 + (before - rd.len());
                 if len == 0 { continue; }
-                for _ in 0..rng.range(1, 3) {
-                    let i = start + hdr + rng.below(len as u64) as usize;
-                    b[i] = match rng.below(5) { 0 => 0, 1 => 0xff, 2 => b[i].wrapping_add(1), 3 => b[i].wrapping_sub(1), _ => rng.next() as u8 };
+                // the first mutants are structure-aware: the stored HEADS of the document chunk (a head
+                // repeated over another one, two heads swapped, a head replaced by another change's hash)
+                let mut structured = false;
+                if m < 4 && ty == 0 {
+                    let body = start + hdr;
+                    let mut rd = &b[body..end];
+                    let l0 = rd.len();
+                    let skip = (|| -> Option<(usize, usize)> {
+                        let na = leb128::read::unsigned(&mut rd).ok()?;
+                        for _ in 0..na { let al = leb128::read::unsigned(&mut rd).ok()? as usize; if rd.len() < al { return None; } rd = &rd[al..]; }
+                        let nh = leb128::read::unsigned(&mut rd).ok()? as usize;
+                        if rd.len() < 32 * nh { return None; }
+                        Some((body + (l0 - rd.len()), nh))
+                    })();
+                    if let Some((hpos, nh)) = skip {
+                        let others: Vec<ChangeHash> = d.get_changes(&[]).iter().map(|c| c.hash()).collect();
+                        match m {
+                            0 if nh >= 2 => { let (i, j) = (rng.below(nh as u64) as usize, rng.below(nh as u64) as usize); if i != j { let src: Vec<u8> = b[hpos + 32 * i..hpos + 32 * i + 32].to_vec(); b[hpos + 32 * j..hpos + 32 * j + 32].copy_from_slice(&src); structured = true; } }
+                            1 if nh >= 2 => { let src: Vec<u8> = b[hpos..hpos + 32].to_vec(); let dst: Vec<u8> = b[hpos + 32..hpos + 64].to_vec(); b[hpos..hpos + 32].copy_from_slice(&dst); b[hpos + 32..hpos + 64].copy_from_slice(&src); structured = true; }
+                            2 | 3 if nh >= 1 && !others.is_empty() => { let h = others[rng.below(others.len() as u64) as usize]; let j = rng.below(nh as u64) as usize; if b[hpos + 32 * j..hpos + 32 * j + 32] != h.0[..] { b[hpos + 32 * j..hpos + 32 * j + 32].copy_from_slice(&h.0); structured = true; } }
+                            _ => {}
+                        }
+                    }
+                }
+                if !structured {
+                    for _ in 0..rng.range(1, 3) {
+                        let i = start + hdr + rng.below(len as u64) as usize;
+                        b[i] = match rng.below(5) { 0 => 0, 1 => 0xff, 2 => b[i].wrapping_add(1), 3 => b[i].wrapping_sub(1), _ => rng.next() as u8 };
+                    }
                 }
                 let mut h = sha2::Sha256::new();
                 let mut pre = vec![ty];
